@@ -184,7 +184,7 @@ def events(cfg):
                             ns=ns, id=cfg['ids'][-1], ev='e_tup2', n=n))
         A.append(mk('RxFrame', t=t, kind='att', b='b1'))
         A.append(mk('RxFrame', t=t, kind='att', b='b2'))
-    return A
+    return _mp_filter(cfg, A)
 
 
 _EV = dict(transports=['t1', 't2'], ns_h=['/', '/a'], ns_all=['/', '/a', '/x'],
@@ -220,7 +220,7 @@ def acks(cfg):
             A.append(mk('RxFrame', t=t, kind='hdr', ty='BINARY_ACK', ns=ns,
                         id=1, ev='', n=1))
         A.append(mk('RxFrame', t=t, kind='att', b='b1'))
-    return A
+    return _mp_filter(cfg, A)
 
 
 CONFIGS['acks'] = dict(transports=['t1', 't2'], ns_h=['/', '/a'],
@@ -296,7 +296,9 @@ CONFIGS['residue_quick'] = dict(CONFIGS['residue'], transports=['t1'],
 
 # ------------------------------------------------------------------ hostile
 def hostile(cfg):
-    from .srv import RAW_CLASS
+    from .srv import RAW_CLASS, MP_RAW_CLASS
+    if cfg.get('serializer') == 'msgpack':
+        RAW_CLASS = MP_RAW_CLASS
     A = base(cfg)
     off = cfg['offender']
     S = [sid(i) for i in range(1, cfg['max_sid'] + 1)]
@@ -326,7 +328,16 @@ def hostile(cfg):
     A.append(mk('RxFrame', t=off, kind='hdr', ty='BINARY_ACK', ns='/', id=1,
                 ev='', n=1))
     A.append(mk('RxFrame', t=off, kind='att', b='b1'))
-    return A
+    return _mp_filter(cfg, A)
+
+
+def _mp_filter(cfg, A):
+    """The msgpack serializer has no multi-frame packets: a packet claiming
+    to be binary always announces 0 attachments."""
+    if cfg.get('serializer') != 'msgpack':
+        return A
+    return [a for a in A if not (a['act'] == 'RxFrame' and
+                                 a['kind'] == 'hdr' and a['n'] != 0)]
 
 
 CONFIGS['hostile'] = dict(transports=['t1', 't2', 't3'], offender='t1',
@@ -340,3 +351,16 @@ CONFIGS['hostile_quick'] = dict(CONFIGS['hostile'], transports=['t1', 't2'],
                                      'longid', 'deepjson', 'bytes', 'count11',
                                      'strpayload', 'intevent',
                                      'evunknownns', 'ackunknownns'])
+
+# the same isolation claim for servers using the msgpack serializer
+CONFIGS['hostile_mp_quick'] = dict(
+    CONFIGS['hostile_quick'], serializer='msgpack',
+    raw=sorted(['garbage', 'empty', 'text', 'int', 'list', 'nil', 'notype',
+                'nonsp', 'connerr', 'type9', 'typestr', 'dictpayload',
+                'nodata', 'emptylist', 'deep', 'evunknownns',
+                'ackunknownns', 'intevent', 'surplus']))
+CONFIGS['events_mp_quick'] = dict(CONFIGS['events_quick'],
+                                  serializer='msgpack',
+                                  evs=['e_none', 'e_v', 'e_z', 'e_el', 'e_h',
+                                       'e_tup2', 'e_unh', 'e_raise'])
+CONFIGS['acks_mp_quick'] = dict(CONFIGS['acks_quick'], serializer='msgpack')
